@@ -4,7 +4,7 @@
 use super::common::*;
 use crate::gen::data::{recipe, Recipe};
 use crate::runner::*;
-use crate::sut::capi::{check_accounting, snap};
+use crate::sut::capi::{check_accounting, snap, tinfl_decompressor_alloc, tinfl_decompressor_free, tinfl_get_adler32, tinfl_init};
 use crate::sut::guardbuf::{Align, GuardBuf};
 use crate::sut::*;
 use crate::{vensure, vfail};
@@ -361,7 +361,26 @@ fn c_tinfl(input: &AnyInput, flags: u32, out_len: usize, start: usize, mode: u8,
             };
             let chunk = start + 1;
             let gout = GuardBuf::new(total, al(end_align));
-            let mut d = tinfl_decompressor::default();
+            // every other case: the object comes from tinfl_decompressor_alloc (+ tinfl_init, and a
+            // first, abandoned use followed by tinfl_init again)
+            let heap = out_len % 2 == 1;
+            let mut local = tinfl_decompressor::default();
+            // SAFETY: alloc/init/free as documented
+            let dptr: *mut tinfl_decompressor = if heap { unsafe { tinfl_decompressor_alloc() } } else { &mut local };
+            vensure!(!dptr.is_null(), "c17:tinfl_decompressor_alloc", "returned null");
+            if heap {
+                // SAFETY: live object
+                unsafe {
+                    tinfl_init(dptr);
+                    if out_len % 4 == 3 && !data.is_empty() {
+                        let mut scratch = [0u8; 64];
+                        let (mut i, mut o) = (data.len().min(5), 64usize);
+                        tinfl_decompress(dptr, data.as_ptr(), &mut i, scratch.as_mut_ptr(), scratch.as_mut_ptr(), &mut o, base | TINFL_FLAG_HAS_MORE_INPUT);
+                        tinfl_init(dptr);
+                    }
+                }
+                cx.class("tinfl:heap-object");
+            }
             let mut r = DecompressorOxide::new();
             let mut ro = vec![0u8; total];
             let (mut ipos, mut opos) = (0usize, 0usize);
@@ -373,15 +392,42 @@ fn c_tinfl(input: &AnyInput, flags: u32, out_len: usize, start: usize, mode: u8,
                 let mut in_sz = take;
                 let mut out_sz = total - opos;
                 // SAFETY: guard buffers; next pointer inside (or one past) the buffer
-                let st = guard(|| unsafe { tinfl_decompress(&mut d, gi.ptr(), &mut in_sz, gout.ptr(), gout.ptr().add(opos), &mut out_sz, fl) }).map_err(|pm| Violation::new(panic_sig("c17:tinfl_decompress", &pm), format!("tinfl_decompress unwound: {pm}")))?;
+                let st = guard(|| unsafe { tinfl_decompress(dptr, gi.ptr(), &mut in_sz, gout.ptr(), gout.ptr().add(opos), &mut out_sz, fl) }).map_err(|pm| Violation::new(panic_sig("c17:tinfl_decompress", &pm), format!("tinfl_decompress unwound: {pm}")))?;
                 let (rs, rin, rout) = decompress(&mut r, &data[ipos..ipos + take], &mut ro, opos, fl);
                 calls += 1;
+                // SAFETY: live object
+                let ca = unsafe { tinfl_get_adler32(dptr) };
+                vensure!(ca == r.adler32().unwrap_or(0) as c_int, "c17:tinfl_get_adler32", "call #{calls}: tinfl_get_adler32 -> {ca:#x}, DecompressorOxide::adler32 -> {:?}", r.adler32());
                 vensure!(st == rs as i32 && in_sz == rin && out_sz == rout, "c17:tinfl_decompress-differs", "call #{calls} (in {take}, out_pos {opos} of {total}): tinfl_decompress -> ({st}, {in_sz}, {out_sz}); core::decompress -> ({}, {rin}, {rout})", rs as i32);
                 vensure!(gout.as_slice()[opos..opos + rout] == ro[opos..opos + rout], "c17:tinfl_decompress-bytes", "bytes differ");
                 ipos += rin;
                 opos += rout;
                 if !(st == 1 || st == 2) || (st == 2 && opos == total) || calls > data.len() + total + 16 {
                     break;
+                }
+            }
+            if heap {
+                // SAFETY: allocated by tinfl_decompressor_alloc
+                unsafe { tinfl_decompressor_free(dptr) };
+            }
+            // the shim's default allocator functions: contents survive a growing and a shrinking realloc
+            {
+                let n = 1 + out_len % 300;
+                // SAFETY: alloc / realloc / free of the same block, accesses inside the current size
+                unsafe {
+                    let p = miniz_def_alloc_func(std::ptr::null_mut(), n, 1) as *mut u8;
+                    vensure!(!p.is_null(), "c17:def_alloc", "miniz_def_alloc_func({n}, 1) returned null");
+                    for i in 0..n {
+                        *p.add(i) = (i * 7 + start) as u8;
+                    }
+                    let q = miniz_def_realloc_func(std::ptr::null_mut(), p as *mut c_void, 2, n + 17) as *mut u8;
+                    vensure!(!q.is_null(), "c17:def_realloc", "miniz_def_realloc_func returned null");
+                    let same = (0..n).all(|i| *q.add(i) == (i * 7 + start) as u8);
+                    *q.add(2 * (n + 17) - 1) = 0x5a;
+                    let q2 = miniz_def_realloc_func(std::ptr::null_mut(), q as *mut c_void, 1, n.div_ceil(2)) as *mut u8;
+                    let same2 = !q2.is_null() && (0..n.div_ceil(2)).all(|i| *q2.add(i) == (i * 7 + start) as u8);
+                    miniz_def_free_func(std::ptr::null_mut(), q2 as *mut c_void);
+                    vensure!(same && same2, "c17:def_realloc-contents", "contents not preserved by miniz_def_realloc_func (grow {same}, shrink {same2})");
                 }
             }
             cx.evals(calls as u64);
